@@ -454,7 +454,7 @@ def _task_sig(t):
 # ---------------------------------------------------------------------------------------------
 
 
-def audit_plan(e, parts=None, schema=True, structure=True):
+def audit_plan(e, parts=None, schema=True, structure=True, ref=None):
     """Declared-vs-computed audit of expression `e` (a collection a user can hold).
     Returns (list of problems, stats).  `parts` = computed partitions (computed here if None)."""
     from vmon.compare import dkind
@@ -535,19 +535,34 @@ def audit_plan(e, parts=None, schema=True, structure=True):
                 if isinstance(meta, pd.DataFrame):
                     for j, c in enumerate(meta.columns):
                         a, b = dkind(meta.iloc[:, j].dtype), dkind(whole.iloc[:, j].dtype)
-                        if a != b and not _schema_promotion_ok(a, b, whole.iloc[:, j]):
+                        if a != b and not _schema_promotion_ok(a, b, whole.iloc[:, j]) and not _ref_kind(ref, j, b):
                             problems.append({"oracle": "plan_schema", "symptom": "dtype-kind", "col": str(c), "got": str(whole.iloc[:, j].dtype), "exp": str(meta.iloc[:, j].dtype),
                                              "has_na": bool(whole.iloc[:, j].isna().any())})
                             break
                 else:
                     a, b = dkind(meta.dtype), dkind(whole.dtype)
-                    if a != b and not _schema_promotion_ok(a, b, whole):
+                    if a != b and not _schema_promotion_ok(a, b, whole) and not _ref_kind(ref, None, b):
                         problems.append({"oracle": "plan_schema", "symptom": "dtype-kind", "got": str(whole.dtype), "exp": str(meta.dtype), "has_na": bool(whole.isna().any())})
                 if not problems and not isinstance(whole.index, pd.MultiIndex):
                     a, b = dkind(meta.index.dtype), dkind(whole.index.dtype)
                     if a != b and not _schema_promotion_ok(a, b, whole.index.to_series()):
                         problems.append({"oracle": "plan_schema", "symptom": "index-dtype-kind", "got": str(whole.index.dtype), "exp": str(meta.index.dtype)})
     return problems, stats
+
+
+def _ref_kind(ref, j, kind):
+    """pandas' own promotion may be inherited from upstream (missing values that a later step dropped again): accepted when
+    pandas, run on the same program, arrives at the computed dtype kind too."""
+    from vmon.compare import dkind
+
+    try:
+        if ref is None:
+            return False
+        if j is None:
+            return isinstance(ref, pd.Series) and dkind(ref.dtype) == kind
+        return isinstance(ref, pd.DataFrame) and dkind(ref.iloc[:, j].dtype) == kind
+    except Exception:
+        return False
 
 
 def _name_eq(a, b):
